@@ -179,7 +179,23 @@ def split_top(s, sep=","):
     return out
 
 
+CONSTS = {}
+
+
+def parse_consts(text):
+    """named integer constants of the crate: `const path::NAME: usize = { ... _0 = const 8_usize; ... }`"""
+    out = {}
+    for m in re.finditer(r"^const (\S+): (?:usize|u64|u32|u8) = \{(.*?)^\}", text, re.S | re.M):
+        mm = re.search(r"_0 = const (\d+)_(?:usize|u64|u32|u8);", m.group(2))
+        if mm:
+            out[m.group(1).split("::")[-1]] = mm.group(1)
+    for m in re.finditer(r"^const (\S+): (?:usize|u64|u32|u8) = const (\d+)_(?:usize|u64|u32|u8);", text, re.M):
+        out[m.group(1).split("::")[-1]] = m.group(2)
+    return out
+
+
 def parse_mir(text):
+    CONSTS.update(parse_consts(text))
     fns = {}
     lines = text.split("\n")
     i = 0
@@ -380,7 +396,7 @@ class Exec:
                 b = self.read_place(st, base)
                 if isinstance(b, tuple) and b[0] == "variant":
                     _, optv, variant = b
-                    if isinstance(optv, Opt) and variant == "Some":
+                    if isinstance(optv, Opt) and variant in ("Some", "Continue"):
                         return optv.payload
                     raise Unsupported(f"variant field of {optv}")
                 if isinstance(b, Tup):
@@ -454,6 +470,8 @@ class Exec:
                 return Slice("empty", "0", "0")
             if c == "()":
                 return Tup([])
+            if c.split("::")[-1] in CONSTS and re.fullmatch(r"[\w:]+", c):
+                return Int(CONSTS[c.split("::")[-1]])
             return Opaque("const:" + c)
         if re.fullmatch(r"[\w:<>', \[\]&{}#()\->]+", o) and not re.match(r"_\d+", o):
             return Opaque("item:" + o)  # function items, unit-like enum constants
@@ -514,6 +532,8 @@ class Exec:
         if m:
             a = self.read_place(st, m.group(1))
             if isinstance(a, Opt):
+                if getattr(a, "cf", False):  # ControlFlow: Continue = 0, Break = 1
+                    return Int(f"(ite {a.some} 0 1)")
                 return Int(f"(ite {a.some} 1 0)")
             raise Unsupported(f"discriminant of {a}")
         m = re.fullmatch(r"&(?:raw const |raw mut |mut )?(?:\(fake\) )?(.+)", rv)
@@ -586,19 +606,29 @@ class Exec:
         st.frames = list(st.frames) + [st.locals]
         st.locals = frame
         results = []
-        self._block(f, "bb0", st, results, set(), depth)
+        self._block(f, "bb0", st, results, tuple() if getattr(self, "unroll", 0) else set(), depth)
         for r in results:
             r.state.locals = r.state.frames[-1]
             r.state.frames = r.state.frames[:-1]
         return results
 
     def _block(self, f, bb, st, results, visited, depth):
-        if bb in visited:
-            if getattr(self, "cut_loops", False):
-                results.append(Outcome("cut", st, msg=f"loop back edge to {bb}"))
+        unroll = getattr(self, "unroll", 0)
+        if unroll:
+            # bounded unrolling: a block may be entered `unroll` times on one path; beyond that the path is
+            # cut, and the caller must show the cut path infeasible (or report the kernel as not decided)
+            seen = sum(1 for b in visited if b == bb) if isinstance(visited, tuple) else 0
+            if seen >= unroll:
+                results.append(Outcome("cut", st, msg=f"loop bound {unroll} reached at {bb}"))
                 return
-            raise Unsupported(f"back edge to {bb} in {f.name}: loops are outside Engine B")
-        visited = visited | {bb}
+            visited = (tuple(visited) if isinstance(visited, tuple) else tuple()) + (bb,)
+        else:
+            if bb in visited:
+                if getattr(self, "cut_loops", False):
+                    results.append(Outcome("cut", st, msg=f"loop back edge to {bb}"))
+                    return
+                raise Unsupported(f"back edge to {bb} in {f.name}: loops are outside Engine B")
+            visited = visited | {bb}
         self.paths += 1
         if self.paths > self.max_paths:
             raise Unsupported("path explosion")
